@@ -192,6 +192,36 @@ def run(ctx):
             for bi, u in enumerate(bases if shortest else bases[:1]):
                 reqs.append(dict(op="tree", orders=orders if shortest else [], u=u.tolist(), ns=[n for n in ns], **lat))
                 meta.append((name, l, shortest, tree, bi, ns, flipped))
+    # ---- churn (lattices built, used once, dropped: re-used addresses) and representations of the base configuration (dtype, layout, writability)
+    import variants
+    for name, l in zoo.churn(rng, 30 if quick else 300, lo=4, hi=14):
+        try:
+            F = l.n_plaquettes
+            if F < 2 or not plaquette_graph_connected(l):
+                continue
+            for shortest in (False, True):
+                rep = lambda what, **kw: ctx.impl_violation(f"{name} [shortest={shortest}]: on a freshly built lattice {what}", dict(case=name, lattice=zoo.lat_to_json(l), shortest=shortest, **kw))
+                tree = gu.plaquette_spanning_tree(l, shortest)
+                if not oracle_tree(ctx, name, l, tree, shortest, rep):
+                    break
+            else:
+                u = (1 - 2 * rng.integers(0, 2, size=l.n_edges)).astype(np.int8)
+                n = int(rng.integers(0, 2 ** min(F - 1, 30)))
+                base = ff.n_to_ujk_flipped(n, u, tree)
+                for lab, uv in variants.of_array(u):
+                    keep = np.array(uv).copy()
+                    v = ff.n_to_ujk_flipped(n, uv, tree)
+                    if not np.array_equal(v, base):
+                        ctx.impl_violation(f"{name}: n_to_ujk_flipped({n}) changes when the same base configuration is passed as {lab}", dict(case=name, lattice=zoo.lat_to_json(l), n=n, u=u.tolist(), representation=lab)); break
+                    if not variants.untouched(lab, keep, uv):
+                        ctx.impl_violation(f"{name}: n_to_ujk_flipped({n}) modified its input ({lab})", dict(case=name, lattice=zoo.lat_to_json(l), n=n, u=u.tolist(), representation=lab)); break
+                for lab, tv in variants.of_array(tree):
+                    if not np.array_equal(ff.n_to_ujk_flipped(n, u, tv), base):
+                        ctx.impl_violation(f"{name}: n_to_ujk_flipped({n}) changes when the same tree is passed as {lab}", dict(case=name, lattice=zoo.lat_to_json(l), n=n, u=u.tolist(), representation=lab)); break
+            ctx.case((name, "churn"), nontrivial=F >= 3)
+            ctx.count("churn_lattices")
+        except Exception as ex:
+            ctx.impl_violation(f"{name}: raised {type(ex).__name__}: {ex} on a freshly built lattice", dict(case=name, lattice=zoo.lat_to_json(l)))
     outs = core.Driver().run_parallel(reqs)
     for (name, l, shortest, tree, bi, ns, flipped), o in zip(meta, outs):
         brk = lambda what, **kw: ctx.corr_break(f"{name} [shortest={shortest}]: {what}", dict(case=name, lattice=zoo.lat_to_json(l), shortest=shortest, **kw))
